@@ -127,9 +127,10 @@ func covMethods(c *Ctx) {
 				"method constant is upper case", "method constant \""+constArg+"\" is not upper case but lookups normalise with strings.ToUpper")
 		}
 	}
-	if instances < 4 {
+	if instances < 3 {
 		c.S.Undecided("C14", "COV-METHODS", "floor", "-", "fewer method-enumerating functions than confirmed by hand (4)")
 	}
+	c.siblingGuards(isMethodField)
 	// composite literal method sets (sortref.validMethods)
 	upper := map[string]bool{}
 	for _, m := range methods {
@@ -181,5 +182,62 @@ func covMethods(c *Ctx) {
 	}
 	if found < 1 {
 		c.S.Undecided("C03", "COV-METHODSET", "floor", "-", "no method table literal found (expected sortref.validMethods)")
+	}
+}
+
+// siblingGuards (contradiction rule): a branch entered because the operation under one HTTP method is
+// non-nil must not use the operation under another method of the same path item that it did not test.
+func (c *Ctx) siblingGuards(isMethodField func(*types.Var) bool) {
+	n := 0
+	for _, fi := range c.P.SortedFuncs() {
+		info := c.info(fi)
+		ast.Inspect(fi.Decl.Body, func(nd ast.Node) bool {
+			ifs, ok := nd.(*ast.IfStmt)
+			if !ok {
+				return true
+			}
+			tested := map[string]bool{} // subject|field
+			subj := ""
+			for _, cd := range core.SplitCond(ifs.Cond, false) {
+				if x, nonNil, isNil := core.NilTest(info, cd); isNil && nonNil {
+					if sel, ok := core.Unparen(x).(*ast.SelectorExpr); ok && isMethodField(core.FieldOf(info, sel)) {
+						subj = exprStr(sel.X)
+						tested[subj+"|"+sel.Sel.Name] = true
+					}
+				}
+			}
+			if len(tested) == 0 {
+				return true
+			}
+			n++
+			var bad []string
+			check := func(root ast.Node) {
+				ast.Inspect(root, func(m ast.Node) bool {
+					sel, ok := m.(*ast.SelectorExpr)
+					if !ok || !isMethodField(core.FieldOf(info, sel)) {
+						return true
+					}
+					if exprStr(sel.X) == subj && !tested[subj+"|"+sel.Sel.Name] {
+						bad = append(bad, exprStr(sel))
+					}
+					return true
+				})
+			}
+			check(ifs.Body)
+			check(ifs.Cond)
+			prop := c.propForFunc(fi, "C14")
+			var keys []string
+			for k := range tested {
+				keys = append(keys, strings.SplitN(k, "|", 2)[1])
+			}
+			sort.Strings(keys)
+			c.S.Decide(len(bad) == 0, prop, "GUARD-SIBLING", fi.QName()+"/"+subj+"."+strings.Join(keys, "+"), c.P.Pos(ifs.Pos()),
+				"the branch uses only the operation it tested",
+				"the branch is entered because "+subj+"."+strings.Join(keys, ",")+" is non-nil but uses "+strings.Join(bad, ", ")+", which it did not test: wrong operation (or a nil dereference) for path items that define one method and not the other")
+			return true
+		})
+	}
+	if n < 7 {
+		c.S.Note("GUARD-SIBLING: only %d method-guarded branches found", n)
 	}
 }
